@@ -158,6 +158,22 @@ def arms : List Arm := [
   ⟨6,  [.proto 1, .oneFile .incorrectFds, .body "VhostUserLog"], .setLogBase⟩
 ]
 
+/-- the arm as a list of signatures, in the vocabulary of the generated `Gen.Dispatch.sigs` -/
+def Guard.sig : Guard → Sig
+  | .proto b => .proto b | .virtio b => .virtio b
+  | .sizeIs .zero => .sizeZero | .sizeIs .any => .sizeAny | .sizeIs (.ofT ty) => .sizeOf ty
+  | .body ty => .body ty
+  | .oneFile .invalidParam => .file "InvalidParam" | .oneFile .incorrectFds => .file "IncorrectFds"
+  | .oneFile .invalidMsg => .file "InvalidMessage" | .oneFile _ => .file "?"
+  | .vringFd => .vringfd | .enable01 => .enable01
+
+def Act.sig : Act → Sig
+  | .memTable => .helper "set_mem_table" | .getConfig => .helper "get_config" | .setConfig => .helper "set_config"
+  | .backendReqFd => .helper "set_backend_req_fd" | .gpuSocket => .helper "set_gpu_socket"
+  | a => .call a.method
+
+def Arm.sig (a : Arm) : Nat × List Sig := (a.code, a.guards.map Guard.sig ++ [a.act.sig])
+
 /-- request codes whose messages may carry files (`check_attached_files`) -/
 def fdCodes : List Nat := [5, 13, 12, 14, 6, 7, 21, 32, 37, 42, 33]
 
